@@ -908,7 +908,7 @@ v("d54-window-sort-by-all-columns-c27", "C27", PB,
 v("d55-compose-blocks-to-rows-ignores-result-names", "C17", "cdata.py",
   "                        rsi[c] = [landed_in.get(v, v) for v in rsi[c]]\n", "                        rsi[c] = [v for v in rsi[c]]\n")
 
-v("d56-polars-strict-stacking", "C17", PM, '            rows, how="vertical_relaxed"\n', '            rows, how="vertical"\n')
+v("d56-polars-strict-stacking", "C17", PM, '        res = pl.concat(rows, how="vertical_relaxed")\n', '        res = pl.concat(rows, how="vertical")\n')
 v("d57-polars-concat-rows-drops-result", "C03", PM, '        return pl.concat(frame_list, how="vertical")\n', '        pl.concat(frame_list, how="vertical")\n')
 v("d57-polars-concat-columns-drops-result", "C03", PM, '        res = pl.concat(frame_list, how="horizontal")\n        return res\n', '        res = pl.concat(frame_list, how="horizontal")\n')
 
@@ -1067,3 +1067,13 @@ v("d105-pandas-rows-by-observed-levels", "C08", PB, "        res = res.reindex(c
 v("d105-polars-rows-by-observed-levels", "C17", PM, "        res = res.select(\n            [\n                pl.col(c) if c in res.columns else pl.lit(None).alias(c)\n                for c in blocks_in.row_columns\n            ]\n        )\n", "")
 v("d105-polars-blocks-keys-first", "C03", PM, "        res = res.select(blocks_out.block_columns)  # the declared column order\n", "")
 v("d105-pandas-blocks-keys-first", "C17", PB, "        res = res.loc[:, blocks_out.block_columns]  # the declared column order\n", "")
+
+v("d106-polars-record-sort-nulls-first", "C17", PM, "            res = res.sort(blocks_in.record_keys, nulls_last=True)\n", "            res = res.sort(blocks_in.record_keys)\n")
+v("d106-polars-record-sort-nulls-first-c03", "C03", PM, "            res = res.sort(blocks_out.control_table_keys, nulls_last=True)\n", "            res = res.sort(blocks_out.control_table_keys)\n")
+
+CD = "cdata.py"
+v("d107-keyed-column-names-ignored", "C17", CD, "            blocks_out=self.value_column_form(\n                key_column_name=key_column_name, value_column_name=value_column_name\n            ),", "            blocks_out=self.value_column_form(),")
+
+v("d108-keyless-group-by-unguarded", "C17", SM, "        if len(control_cols) > 0:  # no record keys: the whole table is one record\n", "        if True:\n")
+
+v("d109-relaxed-stacking-unguarded", "C17", PM, "            if (len(stacked_types) > 1) and (\n                not all([t.is_numeric() for t in stacked_types])\n            ):", "            if False:")
